@@ -484,7 +484,7 @@ pub fn check(case: &Case, env: &mut CaseEnv) -> Result<(), Failure> {
 
 pub fn shard(ctx: &mut Ctx) {
     let extreme = !ctx.kf.active("KF-int-range-overflow");
-    let (api_n, csv_n, max_rows) = ctx.tier.pick((5000, 1000, 70), (60000, 12000, 300));
+    let (api_n, csv_n, max_rows) = ctx.tier.pick((3000, 600, 70), (60000, 12000, 300));
     let n = ctx.share(api_n);
     ctx.drive("api", api_case(max_rows, extreme), n, check);
     let n = ctx.share(csv_n);
